@@ -648,7 +648,11 @@ impl<'de, R: Read<'de>> Parser<R> {
                 if SYMBOL_EXTENDED.contains(&peek) {
                     Token::Symbol(self.parse_symbol()?.into())
                 } else {
-                    return Err(self.peek_error(ErrorCode::ExpectedSomeValue));
+                    let err = self.peek_error(ErrorCode::ExpectedSomeValue);
+                    // Skip the offending byte, so that a caller that goes on
+                    // after the error does not see it again.
+                    self.eat_char();
+                    return Err(err);
                 }
             }
         };
